@@ -74,6 +74,15 @@ def parse_table(path):
     return numpy.array(rows), numpy.array(cols), numpy.array(vals)
 
 
+def parse_or_flag(ctx, path, clause):
+    """parse_table, or a violation (never a crash) when the file is not a table of numbers"""
+    try:
+        return parse_table(path)
+    except Exception:
+        ctx.violation(f"{Path(path).name} is not a table of numbers: {Path(path).read_text()[:80]!r}", {"file": Path(path).name}, {"clause": clause})
+        return None
+
+
 def main(ctx, replay=None):
     from cij.io.output import ResultsWriter
     rng = numpy.random.default_rng(ctx.seed + 1515)
@@ -214,7 +223,10 @@ def overrides(ctx, calc, wd, ds):
         if not (out / fn).exists():
             ctx.violation(f"unit + file-name override ({what}) wrote no file {fn}", {}, {"clause": "override_fname"})
             continue
-        _, _, vx = parse_table(out / fn)
+        pt = parse_or_flag(ctx, out / fn, "override_unit")
+        if pt is None:
+            continue
+        vx = pt[2]
         if not agrees_to_printed_precision(out / fn, vx, numpy.asarray(arr)[:-4] * fac):
             ctx.violation(f"unit override not honoured: {fn} does not hold {what}", {}, {"clause": "override_unit"})
         (out / fn).unlink()
@@ -235,10 +247,16 @@ def overrides(ctx, calc, wd, ds):
     if files != ["G_V_tp_gpa.txt", "my_bulk.dat"]:
         ctx.violation(f"file-name override not honoured: files {files}", {"files": files}, {"clause": "override_fname"})
         return
-    _, _, v1 = parse_table(out / "my_bulk.dat")
+    pt = parse_or_flag(ctx, out / "my_bulk.dat", "override_fname_content")
+    if pt is None:
+        return
+    v1 = pt[2]
     if not agrees_to_printed_precision(out / "my_bulk.dat", v1, numpy.asarray(calc.pressure_base.bulk_modulus_voigt)[:-4] * FACT[("Ry/bohr3", "GPa")]):
         ctx.violation("my_bulk.dat does not contain the Voigt bulk modulus in GPa", {}, {"clause": "override_fname_content"})
-    _, _, v2 = parse_table(out / "G_V_tp_gpa.txt")
+    pt = parse_or_flag(ctx, out / "G_V_tp_gpa.txt", "override_unit")
+    if pt is None:
+        return
+    v2 = pt[2]
     if not agrees_to_printed_precision(out / "G_V_tp_gpa.txt", v2, numpy.asarray(calc.pressure_base.shear_modulus_voigt)[:-4] * FACT[("Ry/bohr3", "GPa")] * 10.0):
         ctx.violation("unit override 'kbar' not honoured for G_V", {}, {"clause": "override_unit"})
 
@@ -263,8 +281,10 @@ def repeated_entries(ctx, calc, wd):
     if files != ["bm_V_tp_gpa.txt", "bulk_kbar.dat", "v_tp_ang3.txt", "volumes_again.dat"]:
         ctx.violation(f"one writer, entries [bm_V, bulk_modulus_voigt->bulk_kbar.dat, V, v->volumes_again.dat]: files {files}", {"files": files}, {"clause": "repeat_files"})
         return
-    _, _, a = parse_table(out / "bm_V_tp_gpa.txt")
-    _, _, b = parse_table(out / "bulk_kbar.dat")
+    pa, pb = parse_or_flag(ctx, out / "bm_V_tp_gpa.txt", "repeat_content"), parse_or_flag(ctx, out / "bulk_kbar.dat", "repeat_content")
+    if pa is None or pb is None:
+        return
+    a, b = pa[2], pb[2]
     if not agrees_to_printed_precision(out / "bulk_kbar.dat", b, numpy.asarray(calc.pressure_base.bulk_modulus_voigt)[:-4] * FACT[("Ry/bohr3", "GPa")] * 10.0):
         ctx.violation("the second entry of the same variable (unit kbar) does not carry the converted values", {}, {"clause": "repeat_content"})
     if (out / "v_tp_ang3.txt").read_bytes() != (out / "volumes_again.dat").read_bytes():
